@@ -220,6 +220,11 @@ func doDump(w *World, name string) {
 		}
 		for _, c := range CallsIn(f) {
 			fmt.Printf("  call  @%s %s\n", w.InstrPos(c), w.canonCall(c.Common(), 0))
+			if c.Common().StaticCallee() == nil {
+				for _, cal := range w.Callees(c) {
+					fmt.Printf("        -> %s\n", w.FName(cal))
+				}
+			}
 		}
 		for _, b := range f.Blocks {
 			for _, in := range b.Instrs {
